@@ -46,7 +46,7 @@ Src(r) == CASE r.t = "lit" -> r.c
             [] r.t = "star" -> "(" \o Src(r.r) \o ")*"
             [] r.t = "fold" -> "(?i)" \o Src(r.r)
 
-PatternPool == << Lit("x"), Lit("xy"), Lit("yy"), Cat(Lit("x"), AnyChar), Cat(AnyChar, Lit("y")), Cat(Lit("x"), Star(Lit("x"))),
+PatternPool == << Lit("x"), Lit("y"), Lit("xy"), Lit("yy"), Cat(Lit("x"), AnyChar), Cat(AnyChar, Lit("y")), Cat(Lit("x"), Star(Lit("x"))),
                   Alt(Lit("xx"), Lit("yx")), Cat(AnyChar, AnyChar), Cat(Lit("y"), Cat(Star(Lit("x")), Lit("y"))), Cat(Lit("x"), Cat(AnyChar, Lit("y"))),
                   Fold(Lit("yy")) >>
 
